@@ -19,6 +19,7 @@ type SolverStats struct {
 	Nanos                        int64
 	Restarts                     int64
 	Fresh                        int64
+	Cvc5                         int64
 }
 
 var gStats SolverStats
@@ -256,19 +257,96 @@ func (s *Solver) CheckModel(pc []*Term, extra *Term, vars []*Term) (string, map[
 		s.fresh = &Solver{bin: s.bin, timeout: s.timeout, isFresh: true}
 		s.fresh.start()
 	}
-	r, m = s.fresh.checkFresh(pc, extra, vars)
+	short := s.timeout
+	if short > 10*time.Second {
+		short = 10 * time.Second
+	}
+	r, m = s.fresh.checkFresh(pc, extra, vars, short)
+	if r == "unknown" && !strings.Contains(s.bin, "cvc5") {
+		// portfolio: cvc5 decides some bit-vector multiplication/comparison queries in seconds
+		// on which z3 does not finish
+		if r2, m2 := checkCvc5(pc, extra, vars, s.timeout); r2 != "unknown" {
+			atomic.AddInt64(&gStats.Cvc5, 1)
+			return r2, m2
+		}
+	}
+	if r == "unknown" && short < s.timeout {
+		r, m = s.fresh.checkFresh(pc, extra, vars, s.timeout)
+	}
 	if r == "unknown" {
 		atomic.AddInt64(&gStats.Unknown, 1)
 	}
 	return r, m
 }
 
-func (s *Solver) checkFresh(pc []*Term, extra *Term, vars []*Term) (string, map[string]*big.Int) {
+// checkCvc5 decides one query with a one-shot cvc5 process.
+func checkCvc5(pc []*Term, extra *Term, vars []*Term, timeout time.Duration) (string, map[string]*big.Int) {
+	bin, err := exec.LookPath("cvc5")
+	if err != nil {
+		return "unknown", nil
+	}
+	tmp := &Solver{defined: map[int64]bool{}, declVar: map[string]bool{}}
+	var sb strings.Builder
+	sb.WriteString("(set-logic ALL)\n(set-option :produce-models true)\n")
+	for _, t := range pc {
+		tmp.define(t, &sb)
+		fmt.Fprintf(&sb, "(assert %s)\n", t.ref())
+	}
+	if extra != nil {
+		tmp.define(extra, &sb)
+		fmt.Fprintf(&sb, "(assert %s)\n", extra.ref())
+	}
+	for _, v := range vars {
+		tmp.define(v, &sb)
+	}
+	sb.WriteString("(check-sat)\n")
+	if len(vars) > 0 {
+		sb.WriteString("(get-value (")
+		for _, v := range vars {
+			sb.WriteString(v.ref())
+			sb.WriteByte(' ')
+		}
+		sb.WriteString("))\n")
+	}
+	if timeout > 60*time.Second {
+		timeout = 60 * time.Second
+	}
+	cmd := exec.Command(bin, "--lang=smt2", fmt.Sprintf("--tlimit=%d", timeout.Milliseconds()))
+	cmd.Stdin = strings.NewReader(sb.String())
+	out, _ := cmd.Output()
+	txt := string(out)
+	lines := strings.SplitN(strings.TrimSpace(txt), "\n", 2)
+	if strings.HasPrefix(strings.TrimSpace(lines[0]), "(error") || (strings.TrimSpace(lines[0]) == "sat" && strings.Contains(txt, "(error")) {
+		return "unknown", nil
+	}
+	switch strings.TrimSpace(lines[0]) {
+	case "unsat":
+		atomic.AddInt64(&gStats.Unsat, 1)
+		return "unsat", nil
+	case "sat":
+		if len(vars) > 0 {
+			if len(lines) < 2 {
+				return "unknown", nil
+			}
+			m := parseModel(lines[1], vars)
+			if len(m) == 0 {
+				return "unknown", nil
+			}
+			atomic.AddInt64(&gStats.Sat, 1)
+			return "sat", m
+		}
+		atomic.AddInt64(&gStats.Sat, 1)
+		return "sat", map[string]*big.Int{}
+	}
+	return "unknown", nil
+}
+
+func (s *Solver) checkFresh(pc []*Term, extra *Term, vars []*Term, budget time.Duration) (string, map[string]*big.Int) {
 	s.defined = map[int64]bool{}
 	s.declVar = map[string]bool{}
 	var sb strings.Builder
 	sb.WriteString("(reset)\n(set-option :produce-models true)\n")
-	fmt.Fprintf(&sb, "(set-option :timeout %d)\n", s.timeout.Milliseconds())
+	fmt.Fprintf(&sb, "(set-option :timeout %d)\n", budget.Milliseconds())
 	for _, t := range pc {
 		s.define(t, &sb)
 		fmt.Fprintf(&sb, "(assert %s)\n", t.ref())
